@@ -57,6 +57,9 @@ def run(tier: str, seed: int) -> int:
     cases = chk.generate("Gen_C17", shards=list(range(n)), env={"VERIF_NSHARDS": n})
     obs = drive("harness.props.c17", "drive_case", cases)
     verdicts = chk.judge("Judge_C17", obs)
+    from .. import corrupt as _corrupt
+
+    chk.binding_selftest("Judge_C17", obs, verdicts, _corrupt.c17)
     by_id = {o["id"]: _pretty(o) for o in obs}
     chk.absorb(verdicts, by_id, {c["id"]: c for c in cases})
     nontrivial = sum(1 for c in cases if c["pipe"])
